@@ -337,6 +337,7 @@ func c10langTables(w *bytes.Buffer) {
 	c10intLits(w, "File", "langNumFmtFuncZhTW", "langZhTWInts")
 	c10intLits(w, "File", "applyBuiltInNumFmt", "applyBuiltInInts")
 	c10strLits(w, "File", "applyBuiltInNumFmt", "applyBuiltInStrs")
+	c10intLits(w, "xlsxC", "getValueFrom", "getValueFromInts")
 	// CultureName enumeration order
 	var cult []string
 	for _, f := range files {
